@@ -513,7 +513,7 @@ func packTxtString(s string, msg []byte, offset int) (int, error) {
 }
 
 func packOctetString(s string, msg []byte, offset int) (int, error) {
-	if offset >= len(msg) {
+	if offset > len(msg) { // an empty string needs no room; the loop checks for every octet it writes
 		return offset, ErrBuf
 	}
 	for i := 0; i < len(s); i++ {
